@@ -392,14 +392,22 @@ def parseCrashWord (w : String) : Option CrashExec.Word :=
   | ["link", sa, sn, da, dn, sha] => some (.move true sa sn da dn sha)
   | _ => none
 
+def parseCrashWordI (w : String) : Option CrashExec.WordI :=
+  match w.splitOn ":" with
+  | ["write", a, n] => some (.write a n)
+  | _ => (parseCrashWord w).map .w
+
 def c09 : List String → String
   | ["exec", ws] =>
-    match (ws.splitOn ",").mapM parseCrashWord with
+    -- both storage models: Crash (a link is a copy) and CrashI (a link is a second name of one inode)
+    match (ws.splitOn ",").mapM parseCrashWordI with
     | none => "bad-op"
     | some words =>
-      match CrashExec.replay (fun _ => none) words 0 with
-      | none => s!"ok {words.length}"
-      | some i => s!"refused at operation {i}: {(ws.splitOn ",").getD i "?"}"
+      let plain := words.filterMap fun x => match x with | .w y => some y | _ => none
+      match CrashExec.replay (fun _ => none) plain 0, CrashExec.replayI {} words 0 with
+      | none, none => s!"ok {words.length}"
+      | some i, _ => s!"refused at operation {i} (of the operations without write marks)"
+      | none, some i => s!"refused at operation {i} by the inode model: {(ws.splitOn ",").getD i "?"}"
   | _ => "bad-op"
 
 def c20Specs : List Hk.HookSpec := (Gen.hookCurrent.zip Gen.hookUpgradeables).map fun p => ⟨p.1, p.2⟩
